@@ -15,10 +15,7 @@ package policy
 //@ extfunc reflect.DeepEqual
 //@   ensures result == ufb("reflect.DeepEqual", x, y)
 //@   modifies nothing
-//@ extfunc github.com/failsafe-go/failsafe-go/internal/util.ErrorTypesMatch
-//@   ensures result == ufb("ErrorTypesMatch", err, target)
-//@   ensures err == nil ==> !result
-//@   modifies nothing
+// (util.ErrorTypesMatch is verified against its own contract in internal/util/verif_contracts_c12.go: errTypesMatch)
 
 // Policy configuration is frozen once built (builders are documented as not concurrency safe).
 //@ frozen BaseFailurePolicy.errorsChecked, BaseFailurePolicy.failureConditions, BaseFailurePolicy.onSuccess, BaseFailurePolicy.onFailure
@@ -53,9 +50,11 @@ package policy
 //@ func (*BaseFailurePolicy).HandleErrors$1
 //@   ensures [C12.cond.errors] result == ufb("errors.Is", actualErr, t)
 //@   modifies nothing
+// (a nil target or one that is neither an interface nor an error type panics: documented, stated as a precondition)
 //@ func (*BaseFailurePolicy).HandleErrorTypes$1
-//@   ensures [C12.cond.errortypes] result == ufb("ErrorTypesMatch", actualErr, t)
-//@   modifies nothing
+//@   requires validErrTarget(t)
+//@   ensures [C12.cond.errortypes] result == errTypesMatch(actualErr, t)
+//@   modifies methodcalls
 //@ func (*BaseFailurePolicy).HandleResult$1
 //@   ensures [C12.cond.result] result_0 == ufb("reflect.DeepEqual", r, result)
 //@   modifies nothing
@@ -63,8 +62,9 @@ package policy
 //@   ensures [C12.abort.errors] result_0 == ufb("errors.Is", actualErr, t)
 //@   modifies nothing
 //@ func (*BaseAbortablePolicy).AbortOnErrorTypes$1
-//@   ensures [C12.abort.errortypes] result_0 == ufb("ErrorTypesMatch", actualErr, t)
-//@   modifies nothing
+//@   requires validErrTarget(t)
+//@   ensures [C12.abort.errortypes] result_0 == errTypesMatch(actualErr, t)
+//@   modifies methodcalls
 
 // Registration: one condition per argument, in order, each bound to its own target; earlier conditions are kept.
 //@ func (*BaseFailurePolicy).HandleErrors
